@@ -2,6 +2,7 @@
 import Liftbridge.Model.Log
 import Liftbridge.Model.Compact
 import Liftbridge.Model.Subscribe
+import Liftbridge.Model.Sequencer
 import Liftbridge.Driver.Crc
 
 namespace Liftbridge.Driver
@@ -221,6 +222,27 @@ def logStep (st : LogSt) (toks : List String) : LogSt × String :=
       let (d, e, sub') := Subscribe.drain st.l sub
       ({ st with sub := some sub' }, s!"ok {" ".intercalate (d.map showRecBrief)} | {showEnding e}")
   | ["dump"] => (st, "ok " ++ " ".intercalate (st.l.abs.map showRecBrief))
+  | "seq" :: bm :: e :: t :: msgs =>
+    -- C16 (server level): one round of the partition leader's sequencer on the batch it formed:
+    -- `[illegal-batch limit=n ; ]<Append outcome> ; <what each publisher hears> | state`
+    match bm.toNat?, e.toNat?, t.toInt? with
+    | some bm, some e, some t =>
+      match mapIdxM (parseMsg t e) 0 msgs with
+      | some ms =>
+        let (l', ans) := Sequencer.stepBatch st.l ms
+        let outcome := match st.l.append ms with
+          | .ok (_, offs) => s!"ok {showOffs offs}"
+          | .err er => s!"err {er}"
+          | .panic => "panic"
+        let legal := if Sequencer.legalBatch st.l.occ bm ms then ""
+          else s!"illegal-batch limit={max 1 (Sequencer.batchLimit st.l.occ bm)} ; "
+        let showAns : Sequencer.Answer → String
+          | .ack o => s!"ack@{o}"
+          | .nack er => s!"nack:{er}"
+          | .silent => "silent"
+        ({ st with l := l' }, s!"{legal}{outcome} ; {" ".intercalate (ans.map (fun a => showAns a.2))} | " ++ showState l')
+      | none => (st, "bad-op")
+    | _, _, _ => (st, "bad-op")
   | ["ropen", id, o, mode] =>
     match o.toInt? with
     | some o =>
